@@ -280,8 +280,12 @@ pub fn run(tier: &str, seed: i64) -> Outcome {
     for (name, root) in e3::family_roots() {
         let t0 = std::time::Instant::now();
         let before = acc.states;
-        family_histories(name, root, &depths, &prior_depths, if q { 1 } else { 3 }, &mut acc);
-        reports.push(SpaceReport { name: format!("(a) family {}: every prior word of length 1 (and of length 2 with depths <= {}) over {{position q; go depth e; wait}}, then for every root x depth {:?}: ucinewgame; position; go depth; wait", name, if q { 1 } else { 3 }, depths), states: acc.states - before, exhaustive: true, note: format!("[{:.1}s]", t0.elapsed().as_secs_f64()) });
+        // quick tier: the two middlegame families are measured at depths 1-2 (a depth-3 search of Kiwipete costs as much as
+        // the rest of a session); the thorough tier measures every family at 1-4
+        let heavy = q && (name == "opening" || name == "tactical");
+        let fam_depths: Vec<u8> = if heavy { vec![1, 2] } else { depths.clone() };
+        family_histories(name, root, &fam_depths, &prior_depths, if q { 1 } else { 3 }, &mut acc);
+        reports.push(SpaceReport { name: format!("(a) family {}: every prior word of length 1 (and of length 2 with depths <= {}) over {{position q; go depth e; wait}}, then for every root x depth {:?}: ucinewgame; position; go depth; wait", name, if q { 1 } else { 3 }, fam_depths), states: acc.states - before, exhaustive: true, note: format!("[{:.1}s]", t0.elapsed().as_secs_f64()) });
     }
     // (c) a second process
     let t1 = std::time::Instant::now();
